@@ -1817,10 +1817,12 @@ class Transaction(object):
                 else:
                     # There is a signature for this key already
                     n_sigs_replaced += 1
-            # Signatures which cannot be linked to a key are put on the positions which are still free
+            # Signatures which cannot be linked to a key are put on the positions which are still free. When
+            # signatures are replaced the transaction has changed: a signature which matches none of the keys was made
+            # for the previous version and is dropped
             for sig in sigs_unknown_key:
                 free_positions = [i for i, s in enumerate(sig_domain) if s == '']
-                if free_positions:
+                if free_positions and not replace_signatures:
                     sig_domain[free_positions[0]] = sig
                 else:
                     n_sigs_replaced += 1
